@@ -30,6 +30,7 @@ CLAUSE_PROPS = {
     "return-not-expected": {"C06", "C07", "C04", "C15"},  # refined below by the model's pc / error reason
     "decision-not-expected": {"C07", "C06"},
     "draw-not-expected": {"C07", "C09"},
+    "drawn-target-not-the-value-of-a-zero-width-law": {"C07", "C09", "C11"},   # "one target mass is drawn from its distribution"
     "call-after-end": {"C07", "C06"},
     "nontermination": {"C06"},
     "model-ElementOrder": {"C06"}, "model-NeighbourBonds": {"C06"}, "model-TerminalsRespected": {"C06"},
